@@ -105,7 +105,7 @@ var derMutations = []string{"none", "none", "none", "seq-len81", "seq-len82", "s
 
 // buildDER assembles a (possibly mutated) SEQUENCE{INTEGER r, INTEGER s}.
 func buildDER(t *rapid.T, r, s *big.Int) ([]byte, string) {
-	m := rapid.SampledFrom(derMutations).Draw(t, "dermut")
+	m := gen.Sampled(derMutations).Draw(t, "dermut")
 	ints := []tlv{{tag: 0x02, content: minimalInt(r)}, {tag: 0x02, content: minimalInt(s)}}
 	seq := tlv{tag: 0x30}
 	var innerTrail, outerTrail []byte
@@ -145,15 +145,15 @@ func buildDER(t *rapid.T, r, s *big.Int) ([]byte, string) {
 		ints[which].content = nil
 	case "33-byte":
 		c := gen.Bytes(t, 33, 33, "c33")
-		c[0] = rapid.SampledFrom([]byte{0x01, 0x7f, 0x00}).Draw(t, "c33top")
+		c[0] = gen.Sampled([]byte{0x01, 0x7f, 0x00}).Draw(t, "c33top")
 		if c[0] == 0 {
 			c[1] |= 0x80 // minimal, but >= 2^255: in range only if < n
 		}
 		ints[which].content = c
 	case "seq-tag":
-		seq.tag = rapid.SampledFrom([]byte{0x31, 0x10, 0x20, 0xb0, 0x00}).Draw(t, "seqtag")
+		seq.tag = gen.Sampled([]byte{0x31, 0x10, 0x20, 0xb0, 0x00}).Draw(t, "seqtag")
 	case "int-tag":
-		ints[which].tag = rapid.SampledFrom([]byte{0x03, 0x04, 0x22, 0x82, 0x0a, 0x00}).Draw(t, "inttag")
+		ints[which].tag = gen.Sampled([]byte{0x03, 0x04, 0x22, 0x82, 0x0a, 0x00}).Draw(t, "inttag")
 	case "trail-inner":
 		innerTrail = gen.Bytes(t, 1, 3, "trail")
 	case "trail-outer":
@@ -304,7 +304,7 @@ func checkCompact(fail func(string, ...any), x []byte) (bool, bool) {
 func propCompact(t *rapid.T) {
 	r, s := sigValue(t, "r"), sigValue(t, "s")
 	x := append(ref.B32(r), ref.B32(s)...)
-	form := rapid.SampledFrom([]string{"64", "65", "63", "66", "0", "raw"}).Draw(t, "form")
+	form := gen.Sampled([]string{"64", "65", "63", "66", "0", "raw"}).Draw(t, "form")
 	switch form {
 	case "65":
 		x = append(x, rapid.Byte().Draw(t, "v"))
@@ -357,7 +357,7 @@ func checkBIP66(fail func(string, ...any), x []byte) bool {
 // bip66Int draws integer content for the grammar generator: valid minimal
 // forms of various lengths and the invalid neighbours.
 func bip66Int(t *rapid.T, label string) ([]byte, string) {
-	kind := rapid.SampledFrom([]string{"minimal", "minimal", "minimal-padded", "empty", "negative", "overpadded", "long"}).Draw(t, label+"_kind")
+	kind := gen.Sampled([]string{"minimal", "minimal", "minimal-padded", "empty", "negative", "overpadded", "long"}).Draw(t, label+"_kind")
 	n := rapid.IntRange(1, 33).Draw(t, label+"_len")
 	c := gen.Bytes(t, n, n, label+"_c")
 	switch kind {
@@ -404,7 +404,7 @@ func propBIP66(t *rapid.T) {
 		body := append(append([]byte{0x02, byte(len(rc))}, rc...), append([]byte{0x02, byte(len(sc))}, sc...)...)
 		x = append([]byte{0x30, byte(len(body))}, body...)
 		desc = rk + "/" + sk
-		m := rapid.SampledFrom([]string{"sighash", "sighash", "sighash", "no-sighash", "two-sighash", "len+1", "len-1",
+		m := gen.Sampled([]string{"sighash", "sighash", "sighash", "no-sighash", "two-sighash", "len+1", "len-1",
 			"lenR+1", "lenR-1", "lenS+1", "lenS-1", "tag", "rtag", "stag", "lenR=big"}).Draw(t, "bipmut")
 		switch m {
 		case "sighash":
@@ -431,7 +431,7 @@ func propBIP66(t *rapid.T) {
 			x[5+len(rc)]--
 		case "tag":
 			x = append(x, 1)
-			x[0] = rapid.SampledFrom([]byte{0x31, 0x10, 0x00}).Draw(t, "tagv")
+			x[0] = gen.Sampled([]byte{0x31, 0x10, 0x00}).Draw(t, "tagv")
 		case "rtag":
 			x = append(x, 1)
 			x[2] = 0x03
@@ -440,7 +440,7 @@ func propBIP66(t *rapid.T) {
 			x[4+len(rc)] = 0x03
 		case "lenR=big":
 			x = append(x, 1)
-			x[3] = rapid.SampledFrom([]byte{0x7f, 0x80, 0xff, byte(len(x) - 5), byte(len(x) - 6), byte(len(x) - 7)}).Draw(t, "bigR")
+			x[3] = gen.Sampled([]byte{0x7f, 0x80, 0xff, byte(len(x) - 5), byte(len(x) - 6), byte(len(x) - 7)}).Draw(t, "bigR")
 		}
 		desc += "/" + m
 	}
@@ -515,10 +515,26 @@ func checkSPKI(fail func(string, ...any), x []byte) bool {
 		if !bytes.Equal(pk.Bytes(), want.Uncompressed()) {
 			fail("ParseASN1PublicKey(%x): wrong key", x)
 		}
-		if bytes.HasPrefix(x, ref.SPKIPrefixUncompressed) {
-			if re := pk.ASN1Bytes(); !bytes.Equal(re, x) {
-				fail("ASN1Bytes(Parse(%x)) = %x", x, re)
-			}
+		// re-encoding is the canonical uncompressed SPKI; results of separate calls (also on other keys)
+		// are independent buffers that the caller may overwrite
+		canon := ref.EncodeSPKI(want)
+		re := pk.ASN1Bytes()
+		if !bytes.Equal(re, canon) || (bytes.HasPrefix(x, ref.SPKIPrefixUncompressed) && !bytes.Equal(re, x)) {
+			fail("ASN1Bytes(Parse(%x)) = %x", x, re)
+		}
+		otherKey, _ := secec.NewPublicKey(ref.BaseMul(big.NewInt(0xfacade)).Compressed())
+		other := otherKey.ASN1Bytes()
+		if !bytes.Equal(re, canon) {
+			fail("ASN1Bytes(): an earlier result changed when another key was encoded: %x", re)
+		}
+		for i := range other {
+			other[i] = 0xee
+		}
+		for i := range re {
+			re[i] = 0x11
+		}
+		if again := pk.ASN1Bytes(); !bytes.Equal(again, canon) {
+			fail("ASN1Bytes() = %x after the caller overwrote earlier results, want %x", again, canon)
 		}
 	} else if err == nil || pk != nil {
 		fail("ParseASN1PublicKey(%x): accepted, but it is not <fixed prefix> || <valid SEC 1 encoding of a non-identity point>", x)
@@ -533,7 +549,7 @@ func propSPKI(t *rapid.T) {
 		x = gen.Bytes(t, 0, 100, "rawbytes")
 	} else {
 		pc := gen.NonIdentityPoint(t, "pt")
-		payloadKind := rapid.SampledFrom([]string{"uncompressed", "uncompressed", "compressed", "identity", "off-curve", "hybrid", "empty", "x+p"}).Draw(t, "payload")
+		payloadKind := gen.Sampled([]string{"uncompressed", "uncompressed", "compressed", "identity", "off-curve", "hybrid", "empty", "x+p"}).Draw(t, "payload")
 		var payload []byte
 		switch payloadKind {
 		case "uncompressed":
@@ -555,7 +571,7 @@ func propSPKI(t *rapid.T) {
 			payload = sp.Uncompressed()
 			copy(payload[1:33], ref.B32(new(big.Int).Add(sp.X, ref.P)))
 		}
-		m := rapid.SampledFrom([]string{"none", "none", "none", "unused-bits", "unused-bits", "unused-noshift", "other-curve", "other-alg",
+		m := gen.Sampled([]string{"none", "none", "none", "unused-bits", "unused-bits", "unused-noshift", "other-curve", "other-alg",
 			"explicit-null", "swap-oids", "outer-len81", "alg-len81", "bits-len81", "oid-len81", "trail-outer", "trail-inner", "trail-alg",
 			"reorder", "extra-element", "bits-tag", "outer-tag", "truncate", "bitflip", "outer-indefinite"}).Draw(t, "spkimut")
 		alg := tlv{tag: 0x30}
@@ -608,7 +624,7 @@ func propSPKI(t *rapid.T) {
 		case "extra-element":
 			innerTrail = []byte{0x02, 0x01, 0x00}
 		case "bits-tag":
-			bits.tag = rapid.SampledFrom([]byte{0x04, 0x23, 0x83}).Draw(t, "bitstag")
+			bits.tag = gen.Sampled([]byte{0x04, 0x23, 0x83}).Draw(t, "bitstag")
 		case "outer-tag":
 			outer.tag = 0x31
 		case "outer-indefinite":
